@@ -19,7 +19,7 @@ RULE = ("seeded products with random content in every record, all levels (1.1 / 
         "plus distinct (node depth, dtype kind) pairs seen")
 ASSUMPTIONS = ["allowed attribute leaves: Python int/float/bool/str/None and numpy scalars of kind b/i/u/f/c/U",
                "byte order is not part of dtype equality"]
-REQUIRED_OBS = ["variables_checked", "attrs_checked", "selections_checked", "repr_ok", "trees_via_cache"]
+REQUIRED_OBS = ["variables_checked", "attrs_checked", "selections_checked", "repr_ok", "trees_via_cache", "tall_images"]
 
 N = {"quick": 200, "thorough": 5000}
 NSEL = {"quick": 25, "thorough": 120}
@@ -51,12 +51,15 @@ def same_dtype(a, b):
 def run_case(i, tier, seed):
     contracts.install()
     rng = random.Random(f"C12-{seed}-{i}")
-    obs = {"variables_checked": 0, "attrs_checked": 0, "selections_checked": 0, "repr_ok": 0, "nodes": 0}
+    obs = {"tall_images": 0, "variables_checked": 0, "attrs_checked": 0, "selections_checked": 0, "repr_ok": 0, "nodes": 0}
     violations, sigs = [], []
     level = ["1.1", "1.5", "3.1"][i % 3]
-    files, info = gen.rich_product(rng, [seed, i], level=level)
+    # a few products carry an image with more lines than the default request size (1024) and other round limits
+    tall = i % 25 == 7
+    kw = {"n_images": 1, "scans": [None], "geoms": [(rng.choice([1025, 1030, 1100, 2049]), 1)]} if tall else {}
+    files, info = gen.rich_product(rng, [seed, i], level=level, **kw)
     kind = ["memory", "local", "vfs"][(i // 3) % 3]
-    root = harness.unique_root(kind)
+    root = harness.unique_root(kind, rng=rng)
     url = synth.install(files, root, kind)
     sample = None
     try:
@@ -78,6 +81,7 @@ def run_case(i, tier, seed):
         except Exception as e:
             return {"sig": "open-failed", "evals": 0, "obs": obs, "nontrivial": False,
                     "violations": [{"what": f"open raised on a well-formed product: {harness.exc_sig(e)}", "detail": {"level": level}}]}
+        obs["tall_images"] += int(tall)
         sigs.append(f"product|{level}|imgs:{len(info['images'])}|mp:{info['leader']['n_mp']}|{kind}|cache:{int(via_cache)}")
         for node in tree.subtree:
             obs["nodes"] += 1
